@@ -48,6 +48,14 @@ elif flow == "overwrite-only":
     ctx.db_conn.commit()
     if extra.get("close", True):
         ctx.close_db_conn()
+elif flow == "mid-override":
+    # new content is committed, then a complete override flow (backup of that content, overwrite, close)
+    ctx = Wtp(db_path=db_path, quiet=True, quiet_output=True)
+    for t, b in extra["mid"]:
+        ctx.add_page(t, 0, b)
+    ctx.db_conn.commit()
+    analyze_and_overwrite_pages(ctx, [Path(extra["json"])], True, None)
+    ctx.close_db_conn()
 elif flow == "backup-only":
     ctx = Wtp(db_path=db_path, quiet=True, quiet_output=True)
     ctx.backup_db()
